@@ -80,10 +80,10 @@ func suggest(e *Exec) []Op {
 			}
 			missing++
 			if i == e.Cfg.Idx {
-				add(Op{K: Sig}, Op{K: Sig})
+				add(Op{K: Sig}, Op{K: Sig}, Op{K: SigFault})
 			} else {
 				add(Op{K: AddSig, I: i, S: SigValid}, Op{K: AddSig, I: i, S: SigValid}, Op{K: AddSig, I: i, S: SigValid})
-				add(Op{K: AddSig, I: i, S: SigOther}, Op{K: AddSig, I: i, S: SigReplayed})
+				add(Op{K: AddSig, I: i, S: SigOther}, Op{K: AddSig, I: i, S: SigReplayed}, Op{K: AddSig, I: i, S: SigTooLong})
 			}
 		}
 		if missing == 0 {
